@@ -67,3 +67,17 @@ def c08_corpus(outdir, rc_exe, env):
         ctl = struct.pack('<4H', len(g) & 0xFFFF, 0, mode, 6)
         open(os.path.join(outdir, 'golden-%d' % mode), 'wb').write(body + ctl)
     return outdir
+
+
+def c20_corpus(outdir, rc_exe, env):
+    """small seekable archives written by the generator itself (+ trailing control words)"""
+    os.makedirs(outdir, exist_ok=True)
+    e = dict(env)
+    e['VF_DUMP_CORPUS'] = outdir
+    e['VF_OUT'] = outdir + '.tmp'
+    os.makedirs(e['VF_OUT'], exist_ok=True)
+    e['RC_PARAMS'] = 'seed=11 max_success=120 max_size=100'
+    e['VF_TAPE_MAX'] = '256'
+    subprocess.run([rc_exe], env=e, stdout=subprocess.DEVNULL, stderr=subprocess.DEVNULL, timeout=600)
+    shutil.rmtree(e['VF_OUT'], ignore_errors=True)
+    return outdir
